@@ -62,6 +62,9 @@ def evaluate(plan, ctx):
     ev = ["online" if plan["batch_size"] else "offline", "bandits=%d" % len(originals)]
     if plan.get("scaler"):
         ev.append("scaler=" + plan["scaler"])
+    if plan.get("binarized"):
+        ev.append("thompson_binarizer")
+    ev.append("data=" + plan.get("data_container", "list"))
     metrics = set()
     replaced = False
     for b, (name, ca), (_, cb) in zip(plan["bandits"], copies_a, copies_b):
